@@ -190,12 +190,20 @@ class _Spy:
         return getattr(self.__dict__["_inner"], n)
 
     def predict_proba(self, X):
-        out = self._inner.predict_proba(X)
+        try:
+            out = self._inner.predict_proba(X)
+        except Exception:
+            self.__dict__["raised"] = True
+            raise
         self.log.append((np.array(X, copy=True) if isinstance(X, np.ndarray) else X, np.array(out, copy=True)))
         return out
 
     def predict(self, X):
-        out = self._inner.predict(X)
+        try:
+            out = self._inner.predict(X)
+        except Exception:
+            self.__dict__["raised"] = True
+            raise
         self.log.append((np.array(X, copy=True) if isinstance(X, np.ndarray) else X, np.array(out, copy=True)))
         return out
 
@@ -391,6 +399,7 @@ def _obs_clf(c):
         o["weights"] = [float(w) for w in getattr(clf, "weights", [])] if algo != "boss" else None
         o["n_estimators"] = int(clf.n_estimators)
         o["weight_sum"] = float(getattr(clf, "weight_sum", 0.0))
+        o["accuracies"] = [float(e.accuracy) for e in spies]
     else:
         spies = []
 
@@ -410,6 +419,7 @@ def _obs_clf(c):
         o["Xte"] = np.array([list(s) for s in Xte.iloc[:, 0]])
         return o
     logs = grab(lambda: clf.predict_proba(Xte), "proba")
+    o["member_raised"] = any(s.__dict__.get("raised") for s in spies)
     o["members"] = [None if lg is None else lg[1] for lg in logs]
     o["member_inputs"] = [None if lg is None else lg[0] for lg in logs]
     logs2 = grab(lambda: clf.predict(Xte), "pred")
@@ -714,8 +724,8 @@ def _nan_key(c, o, site):
     algo = c.get("algo")
     if algo == "boss" and c["L"] == c.get("params", {}).get("min_window", 10) - 1 and o.get("n_estimators") == 0:
         return site + ":nan-proba:series_length=min_window-1"
-    if algo in ("cboss", "tde") and len(c["labels"]) == 2:
-        return site + ":nan-proba:two-training-instances"
+    if algo in ("cboss", "tde") and o.get("accuracies") and all(a == 0 for a in o["accuracies"]):
+        return site + ":nan-proba:all-members-zero-train-accuracy"
     return site + ":proba-not-distribution"
 
 
@@ -825,10 +835,10 @@ def _check_tree_inputs(o, site, fails):
                     return
 
 
-def _check_intervals(ivs_all, L, site, fails):
+def _check_intervals(ivs_all, L, site, fails, nonempty=True):
     for ivs in ivs_all:
         for (a, b) in ivs:
-            if not (0 <= a < b <= L):
+            if not (0 <= a <= b <= L) or (nonempty and a == b):
                 fails.append((site + ":interval-outside-series", "interval [%d,%d) for series length %d" % (a, b, L)))
                 return
 
@@ -865,7 +875,7 @@ def oracle(c, out):
         return fails
     if kind == "tsfit":
         if o["complete"]:
-            _check_intervals(o["ivs"], c["L"], "tsf.fit", fails)
+            _check_intervals(o["ivs"], c["L"], "tsf.fit", fails, nonempty=(c.get("m") is None or c["m"] >= 1))
         return fails
     site = c.get("algo", kind)
     if o.get("fit_err"):
@@ -887,6 +897,8 @@ def oracle(c, out):
     if kind == "base":
         _check_predict(c, o, site, fails)
         return fails
+    if o.get("proba_err") and o.get("member_raised"):
+        return fails            # a member (black box) failed by itself: not sktime's aggregation
     if o.get("proba_err"):
         if kind == "clf" and c["algo"] == "stsf" and any(len(mc) < len(o["classes"]) for mc in o["member_classes"]):
             fails.append(("stsf:predict_proba-fails:member-bag-misses-a-class",
@@ -963,7 +975,7 @@ def features(c, out):
     if o.get("fit_err"):
         f.append("fit=" + o["fit_err"])
     if o.get("proba_err"):
-        f.append("proba=" + o["proba_err"])
+        f.append("proba=" + o["proba_err"] + (":member-raised" if o.get("member_raised") else ""))
     if "rs" in c:
         f.append("random_state=" + ("None" if c["rs"] is None else "int"))
     if o.get("proba") is not None and not o.get("proba_err") and getattr(o["proba"], "ndim", 0) == 2 and not np.isnan(o["proba"]).any():
